@@ -376,7 +376,7 @@ class Analyzer:
         if self.exact:
             k = v.all_kinds() - {"N"}
             # containing floats / unknown numbers or not
-            kinds = bool(k - {"I", "Z", "Q"})
+            kinds = bool(k - {"I", "Z", "Q", "L"})
         e = v.iter_join() if d < 1 else None
         ek = None
         if e is not None and any(t.startswith(("inst:", "func:", "bfunc:")) for t in e.ty):
@@ -400,6 +400,8 @@ class Analyzer:
             t.startswith(("cls:", "func:", "bfunc:", "ext:", "builtin:", "mod:", "lam:")) for t in a.ty
         ) and all(t.startswith(("cls:", "func:", "bfunc:", "ext:", "builtin:", "mod:", "lam:")) or t == "None" for t in a.ty)
         fs = frozenset({("param", i)}) if "F" in a.kind else EMPTY
+        if "L" in a.kind and depth == 0 and getattr(self, "_cur_int_params", None) and i in self._cur_int_params:
+            a = a.with_(kind=(a.kind - {"L"}) | {"I"})  # handed to an `int` parameter: used as a count
         return Val(
             ty=a.ty,
             pts=EMPTY if immut else {o},
@@ -448,7 +450,9 @@ class Analyzer:
                         obs[i] = j
         key = (fi.qual, tuple(self._akey(a) for a in args))
         ctx = self.ctxs.get(key)
+        self._cur_int_params = {i for i, p in enumerate(fi.params) if isinstance(fi.annots.get(p), ast.Name) and fi.annots[p].id == "int"}
         params = [self.param_val(i, a) for i, a in enumerate(args)]
+        self._cur_int_params = None
         if ctx is None:
             ctx = self.ctxs[key] = Ctx(fi, key, params)
             ctx.cfg = self.cfg_of(fi)
@@ -520,7 +524,7 @@ class Analyzer:
 
 BUILTIN_CLASSES = {"int", "float", "str", "tuple", "list", "set", "dict", "bool", "Fraction", "object", "type", "slice", "frozenset", "complex"}
 EXC_NAMES = {"ValueError", "TypeError", "IndexError", "KeyError", "AssertionError", "NotImplementedError", "Exception", "ZeroDivisionError", "RuntimeError", "AttributeError", "StopIteration", "OverflowError", "ArithmeticError", "BaseException", "LookupError"}
-KRANK = {"N": 0, "I": 1, "Z": 2, "Q": 3, "U": 4, "F": 5}
+KRANK = {"N": 0, "I": 1, "Z": 2, "Q": 3, "L": 3.5, "U": 4, "F": 5}
 
 
 def _callable_tag(t: str) -> bool:
